@@ -63,6 +63,22 @@ def run_step(step, heap):
         return specs.build_vector(a["spec"])
     if op == "copy":
         return x.copy()
+    if op == "get_sparsity":
+        return x.get_sparsity()
+    if op == "filled_copy":
+        y = x.copy()
+        y.fill_missing_blocks()
+        return y
+    if op == "reassemble":
+        # a new array from the public parts of another, handed to the public
+        # constructor as they are
+        kw = {}
+        if not type(x).static_symmetry:
+            kw["symmetry"] = x.symmetry
+        if isinstance(x, sr.FermionicArray):
+            kw["phases"] = x.phases
+            kw["oddpos"] = list(x.oddpos)
+        return type(x)(indices=x.indices, charge=x.charge, blocks=x.blocks, **kw)
     if op == "transpose":
         perm = None if a["perm"] is None else _form(tuple(a["perm"]), a.get("form"))
         kw = dict(ip)
@@ -258,6 +274,9 @@ def run_step(step, heap):
         return bool(x.allclose(vals[1]))
     # ---- linalg
     if op == "qr":
+        if st == "direct" and a.get("stabilized"):
+            q, _, r = sr.linalg.qr_stabilized(x)
+            return q, r
         if st == "do":
             if a.get("stabilized"):
                 q, _, r = ar.do("qr_stabilized", x)
@@ -402,7 +421,7 @@ class Ctx:
 
     def __init__(self, rng, kinds=("A", "F"), syms=("Z2", "U1", "Z2Z2", "U1U1"),
                  p_inplace=0.0, styles=True, sparsity=0.0, weights=None,
-                 max_heap=12, one_sym=None, allow=None, deny=()):
+                 max_heap=12, one_sym=None, allow=None, deny=(), max_charges=3, max_size=3):
         self.rng = rng
         self.kinds = kinds
         self.syms = syms
@@ -415,6 +434,13 @@ class Ctx:
         self.allow = allow
         self.deny = set(deny)
         self.weights = weights or {}
+        self.max_charges = max_charges
+        self.max_size = max_size
+
+    def gen_index(self, sym, **kw):
+        kw.setdefault("max_charges", self.max_charges)
+        kw.setdefault("max_size", self.max_size)
+        return specs.gen_index(self.rng, sym, **kw)
 
     def fresh(self):
         self.n += 1
@@ -433,7 +459,20 @@ class Ctx:
         kw.setdefault("kind", rng.choice(list(self.kinds)))
         kw.setdefault("sym", rng.choice(list(self.syms)))
         kw.setdefault("sparsity", self.sparsity)
-        return specs.gen_spec(rng, labels=self.labels, syms=self.syms, **kw)
+        kw.setdefault("max_charges", self.max_charges)
+        kw.setdefault("max_size", self.max_size)
+        spec = specs.gen_spec(rng, labels=self.labels, syms=self.syms, **kw)
+        if spec["kind"] == "F" and spec["sectors"] and rng.random() < getattr(self, "p_ctor_phases", 0.0):
+            # a sign table handed to the public constructor: -1 on some stored
+            # sectors and possibly on a valid sector that has no block
+            secs = [untuple(t) for t in spec["sectors"]]
+            ph = [t for t in secs if rng.random() < 0.4]
+            allv = specs.valid_sectors(spec["sym"], spec["indices"], spec["charge"])
+            absent = [t for t in allv if t not in secs]
+            if absent and rng.random() < 0.4:
+                ph.append(rng.choice(absent))
+            spec["phases"] = jsonable(ph)
+        return spec
 
 
 def names_of(heap, kinds):
@@ -462,7 +501,7 @@ def _matching_partner_spec(ctx, x, axes_x, extra=None, lead=True):
     sym = _symname(x)
     con = [specs.conj_index_spec(specs.index_spec_of(x.indices[i])) for i in axes_x]
     nextra = rng.choice([0, 1, 1, 2]) if extra is None else extra
-    free = [specs.gen_index(rng, sym) for _ in range(nextra)]
+    free = [ctx.gen_index(sym) for _ in range(nextra)]
     if lead:
         idx = con + free
         axes_b = list(range(len(con)))
@@ -523,6 +562,34 @@ def g_new(ctx, heap):
             args = [ctx.rng.choice([1.0, 0.5, -2.0]) for _ in range(nargs)]
             return [{"op": "new_local", "in": [], "out": [ctx.fresh()],
                      "a": {"fn": fn, "sym": ctx.rng.choice(ok), "args": args}}]
+    if ctx.rng.random() < 0.04 and getattr(ctx, "constructors", True):
+        rng = ctx.rng
+        syms = [x for x in ctx.syms if x != "Z4"]
+        if syms:
+            sym = rng.choice(syms)
+            kind = rng.choice(list(ctx.kinds))
+            g = GROUPS[sym]
+            nd = rng.randint(1, 3)
+            shape = []
+            for _ in range(nd):
+                r = rng.random()
+                if r < 0.4:
+                    shape.append(rng.randint(1, 4))
+                else:
+                    ix = ctx.gen_index(sym)
+                    e = {"cm": ix["cm"]}
+                    if r < 0.65:
+                        e.update({"as": "index", "dual": ix["dual"]})
+                    shape.append(e)
+            duals = rng.choice([None, None, "equal", [bool(rng.random() < 0.5) for _ in range(nd)]])
+            charge = g.zero if rng.random() < 0.6 else rng.choice(specs.CHARGE_POOL[sym])
+            spec = {"via": "get_rand", "kind": kind, "sym": sym, "shape": shape, "duals": duals,
+                    "charge": jsonable(charge), "seed": rng.randrange(2**31),
+                    "subsizes": rng.choice([None, None, "equal", "maximal", "minimal"]),
+                    "dtype": rng.choice(specs.DTYPES[:2])}
+            if kind == "F":
+                spec["oddpos"] = ctx.labels.next() if g.parity(untuple(charge)) else None
+            return [{"op": "new", "in": [], "out": [ctx.fresh()], "a": {"spec": spec}}]
     if ctx.rng.random() < 0.06:
         # a one-element array of rank 1-3 (scalar-like, but not 0-d)
         sym = ctx.rng.choice(list(ctx.syms))
@@ -574,6 +641,21 @@ def g_copy(ctx, heap):
     return [{"op": "copy", "in": [n], "out": [ctx.fresh()], "a": {}}]
 
 
+def g_sparsity(ctx, heap):
+    n = _pick(ctx, heap, "AF", pred=lambda v: v.num_blocks > 0 and v.ndim <= 4)
+    if n is None:
+        return None
+    op = ctx.rng.choice(["get_sparsity", "filled_copy"])
+    return [{"op": op, "in": [n], "out": [ctx.fresh()], "a": {}}]
+
+
+def g_reassemble(ctx, heap):
+    n = _pick(ctx, heap, "AF")
+    if n is None:
+        return None
+    return [{"op": "reassemble", "in": [n], "out": [ctx.fresh()], "a": {}}]
+
+
 def g_transpose(ctx, heap):
     n = _pick(ctx, heap)
     if n is None:
@@ -608,8 +690,7 @@ def g_conj(ctx, heap):
         a["phase_dual"] = rng.random() < 0.5
     if ctx.inplace():
         a["inplace"] = True
-    else:
-        a["style"] = ctx.style("func", "do")
+    a["style"] = ctx.style("func", "do")
     return [{"op": "conj", "in": [n], "out": _out(ctx, n, a), "a": a}]
 
 
@@ -760,8 +841,7 @@ def g_reshape(ctx, heap):
                 pool.append(s)
     if ctx.inplace():
         a["inplace"] = True
-    else:
-        a["style"] = ctx.style("func", "do")
+    a["style"] = ctx.style("func", "do")
     return [{"op": "reshape", "in": [n], "out": _out(ctx, n, a), "a": a}]
 
 
@@ -957,7 +1037,7 @@ def _square_spec(ctx, kind=None, charge_zero=True, sym=None):
     rng = ctx.rng
     kind = kind or rng.choice(list(ctx.kinds))
     sym = sym or rng.choice(list(ctx.syms))
-    ix = specs.gen_index(rng, sym)
+    ix = ctx.gen_index(sym)
     idx = [ix, specs.conj_index_spec(ix)]
     kw = {}
     if charge_zero:
@@ -1286,7 +1366,7 @@ def _matrix(ctx, heap, steps, p_new=0.35, square=False):
 def g_qr(ctx, heap):
     steps = []
     n = _matrix(ctx, heap, steps)
-    a = {"stabilized": ctx.rng.random() < 0.5, "style": ctx.style("do")}
+    a = {"stabilized": ctx.rng.random() < 0.5, "style": ctx.style("do", "direct")}
     steps.append({"op": "qr", "in": [n], "out": [ctx.fresh(), ctx.fresh()], "a": a})
     return steps
 
@@ -1373,7 +1453,7 @@ def g_solve(ctx, heap):
     kind = rng.choice(list(ctx.kinds))
     sym = rng.choice(list(ctx.syms))
     g = GROUPS[sym]
-    ix = specs.gen_index(rng, sym)
+    ix = ctx.gen_index(sym)
     r = rng.random()
     if r < 0.5:
         ix1 = specs.conj_index_spec(ix)
@@ -1447,6 +1527,8 @@ def g_phase(ctx, heap):
 GENERATORS = {
     "new": (g_new, 3),
     "copy": (g_copy, 2),
+    "reassemble": (g_reassemble, 1),
+    "sparsity": (g_sparsity, 1),
     "transpose": (g_transpose, 5),
     "conj": (g_conj, 3),
     "dagger": (g_dagger, 3),
